@@ -59,6 +59,10 @@ func (r *RemoteSSH) Close() error {
 // any other way.
 func (r *RemoteSSH) HasChunk(id ChunkID) (bool, error) {
 	if _, err := r.GetChunk(id); err != nil {
+		// Not having a chunk is an answer, not a failure
+		if _, ok := err.(ChunkMissing); ok {
+			return false, nil
+		}
 		return false, err
 	}
 	return true, nil
